@@ -6,4 +6,4 @@ exec 9>.mk.lock
 flock 9
 { echo "-Q . AP"; echo "-arg -w -arg -notation-overridden,-deprecated-hint-without-locality,-deprecated-instance-without-locality,-deprecated-syntactic-definition"; find Base Gen Model Proofs Props Corr -name '*.v' | sort; } > _CoqProject
 coq_makefile -f _CoqProject -o Makefile.coq >/dev/null 2>&1
-timeout ${COQ_TIMEOUT:-1500} make -f Makefile.coq -j${COQ_JOBS:-16} "$@"
+timeout ${COQ_TIMEOUT:-400} make -f Makefile.coq -j${COQ_JOBS:-16} "$@"
